@@ -8,7 +8,7 @@ Any helpers in this module are *not* bound to maintaining a public interface,
 and offer less convenience to save on overhead.
 """
 
-from inspect import iscoroutinefunction
+from inspect import iscoroutinefunction, isawaitable
 from typing import (
     Any,
     AsyncIterator,
@@ -120,7 +120,7 @@ class Awaitify(Generic[T]):
     def __call__(self, *args: Any, **kwargs: Any) -> Awaitable[T]:
         if (async_call := self._async_call) is None:
             value = self.__wrapped__(*args, **kwargs)
-            if isinstance(value, Awaitable):
+            if isawaitable(value):
                 self._async_call = self.__wrapped__  # type: ignore
                 return value  # pyright: ignore
             else:
